@@ -135,7 +135,7 @@ func (c *c06) Plan(seed uint64, tier string, worker, workers, idx int) *Plan {
 		// detections only, over the pool-dirtying / shape-sensitive inputs of the C04
 		// workload: races between two detections need particular input shapes
 		// (deep paths, big CSV, ...) that the small inputs below never have
-		p := (&c04{}).Plan(seed, tier, worker, workers, idx)
+		p := (&c04{}).plan(seed, tier, worker, workers, idx)
 		p.Prop = "C06"
 		for len(p.Tasks) < 2 {
 			p.Tasks = append(p.Tasks, append([]Op(nil), p.Tasks[0]...))
